@@ -395,6 +395,13 @@ def digest_term(it, algo, log):
             out[-1] = K(out[-1].v + p.v)
         else:
             out.append(p)
+    if any(type(p).__name__ == 'Rope' for p in out):
+        # canonical form when byte layouts are tracked: one rope for the whole hashed stream
+        from .rope import Rope
+        rs = [Rope.of(it, p) for p in out]
+        if all(r is not None for r in rs):
+            whole = Rope([pp for r in rs for pp in r.parts]).simplify()
+            out = [whole]
     if getattr(it, 'CONCRETE_HASH', False) and all(isinstance(p, K) and isinstance(p.v, (bytes, bytearray)) for p in out):
         import hashlib
         return K(hashlib.new(algo, b''.join(bytes(p.v) for p in out)).digest())
